@@ -42,6 +42,9 @@ def ndtok(nd):
 
 
 def nodatas_for(dtype):
+    if dtype == 'float64':
+        # (the last three: values only a 64-bit output can hold - the working data type is float32)
+        return [float('nan'), 0.0, -9999.0, None, float(np.float32(3.0e38)), 0.1, -9999.9, -1.7976931348623157e308]
     if dtype.startswith('float'):
         return [float('nan'), 0.0, -9999.0, None, float(np.float32(3.0e38))]
     lo, hi = RANGE[dtype]
